@@ -340,7 +340,9 @@ class NodeCtx:
         self._getitem_next_stub = s_getitem_next
         return {'vf$slot%d' % K['length']: s_length, 'vf$slot%d' % K['rnw']: s_rnw, 'vf$slot%d' % K['nothing']: s_nothing,
                 'vf$slot%d' % self.slot('5carryERKNS_7IndexOfIlEEb'): s_carry, 'vf$slot%d' % self.slot('12shallow_copyEv'): s_shallow_copy,
-                'vf$slot%d' % self.slot('12getitem_nextERKSt10shared_ptrINS_9SliceItemEERKNS_5SliceERKNS_7IndexOfIlEE'): s_getitem_next}
+                'vf$slot%d' % self.slot('12getitem_nextERKSt10shared_ptrINS_9SliceItemEERKNS_5SliceERKNS_7IndexOfIlEE'): s_getitem_next,
+                'vf$slot%d' % self.slot('6cachesERSt6vector'): stub_noop,                 # an opaque content holds no virtual-array caches
+                'vf$slot%d' % self.slot('7kernelsEv'): (lambda eng, fr, ins, st, name, argv: BV(0, 32))}
 
     def slot(self, frag):
         from .mharness import module_of
